@@ -1482,12 +1482,21 @@ func run(r *core.R) {
 	})
 
 	// ---- chaos phase
-	type updRec struct {
+	// undo record: what (class, interface) wanted before the most recent
+	// desired-state change; "revert" restores it (and can flip back again)
+	type undoRec struct {
 		cs    classSpec
 		iface string
-		key   routetable.RouteKey
+		prev  map[string]routetable.Target
 	}
-	var lastUpd *updRec
+	var undo *undoRec
+	saveUndo := func(cs classSpec, iface string) {
+		cp := map[string]routetable.Target{}
+		for k, t := range w.desired[cs.rank][iface] {
+			cp[k] = t
+		}
+		undo = &undoRec{cs, iface, cp}
+	}
 	for i := 0; i < nops; i++ {
 		op := r.Src.Weighted(weights, "op")
 		switch op {
@@ -1518,9 +1527,9 @@ func run(r *core.R) {
 			cs, iface := w.pickClassIface()
 			t := w.genTarget(cs, iface)
 			r.Op("RouteUpdate %s %s %s", cs.name, iface, tgtStr(t))
+			saveUndo(cs, iface)
 			w.modelSet(cs.rank, iface, w.keyOf(t.CIDR, t.Priority), t)
 			w.sut(func() { w.rt.RouteUpdate(cs.class, w.sutIface(iface), t) })
-			lastUpd = &updRec{cs, iface, t.RouteKey}
 		case 2:
 			cs, iface := w.pickClassIface()
 			have := core.SortedKeys(w.desired[cs.rank][iface])
@@ -1532,6 +1541,7 @@ func run(r *core.R) {
 				key = routetable.RouteKey{CIDR: w.pool[r.Src.Intn(len(w.pool), "rem_cidr")]}
 			}
 			r.Op("RouteRemove %s %s %s prio=%d", cs.name, iface, key.CIDR, key.Priority)
+			saveUndo(cs, iface)
 			if m := w.desired[cs.rank][iface]; m != nil {
 				delete(m, w.keyOf(key.CIDR, key.Priority))
 			}
@@ -1549,6 +1559,7 @@ func run(r *core.R) {
 				desc = append(desc, tgtStr(t))
 			}
 			r.Op("SetRoutes %s %s [%s]", cs.name, iface, strings.Join(desc, " "))
+			saveUndo(cs, iface)
 			if w.desired[cs.rank] == nil {
 				w.desired[cs.rank] = map[string]map[string]routetable.Target{}
 			}
@@ -1579,18 +1590,25 @@ func run(r *core.R) {
 			w.mt.IncrementTime(d)
 			r.AddSimTime(d)
 		case 11:
-			// short-lived route: whatever was announced last is withdrawn again
-			if lastUpd == nil {
+			// flapping desired state: the most recent change is taken back
+			if undo == nil {
 				r.Op("revert (nothing to revert)")
 				break
 			}
-			u := lastUpd
-			lastUpd = nil
-			r.Op("revert: RouteRemove %s %s %s prio=%d", u.cs.name, u.iface, u.key.CIDR, u.key.Priority)
-			if m := w.desired[u.cs.rank][u.iface]; m != nil {
-				delete(m, w.keyOf(u.key.CIDR, u.key.Priority))
+			u := undo
+			saveUndo(u.cs, u.iface) // a second revert flips forward again
+			var ts []routetable.Target
+			var desc []string
+			for _, k := range core.SortedKeys(u.prev) {
+				ts = append(ts, u.prev[k])
+				desc = append(desc, tgtStr(u.prev[k]))
 			}
-			w.sut(func() { w.rt.RouteRemove(u.cs.class, w.sutIface(u.iface), u.key) })
+			r.Op("revert: SetRoutes %s %s [%s]", u.cs.name, u.iface, strings.Join(desc, " "))
+			if w.desired[u.cs.rank] == nil {
+				w.desired[u.cs.rank] = map[string]map[string]routetable.Target{}
+			}
+			w.desired[u.cs.rank][u.iface] = u.prev
+			w.sut(func() { w.rt.SetRoutes(u.cs.class, w.sutIface(u.iface), ts) })
 		case 9:
 			name := w.devices[r.Src.Intn(len(w.devices), "resync_iface")]
 			r.Op("QueueResyncIface %s", name)
